@@ -88,6 +88,8 @@ def run_property(prop, a, seed, t0):
         if ok:
             n_discharged += 1
     for key, vcs in covers.items():
+        if "/cover:raises-" in key[1]:
+            continue  # an exceptional exit that is never taken is not vacuity
         if not any(vc["status"] == "discharged" for vc in vcs):
             if any(vc["status"] == "failed" for vc in vcs):
                 undecided.append((key[0], f"cover {key[1]} unreachable on every path (vacuity guard)"))
